@@ -249,7 +249,6 @@ def removeL : List (Item ι V) → ι → List (Item ι V) × Option V
       (keepNonEmpty r.1 ++ r'.1, r'.2)
 end
 
-mutual
 /-- `HashMap::retain(|k, v| f(k, v))` where the closure gets `&mut V`: `f id v = none` drops the entry,
 `some v'` keeps it with the (possibly updated) value `v'`. -/
 def retainVals (f : ι → V → Option V) (vs : List (ι × V)) : List (ι × V) :=
